@@ -20,6 +20,91 @@ M = {
  ],
 }
 
+M.update({
+ 'C01': [
+  ('subtable-offset-check-dropped', 'src/Face.cpp', 'if (e.test(next > silf.size() || offset >= next, E_BADSIZE))', 'if (e.test(offset >= next, E_BADSIZE))'),
+  ('ranges-length-off-by-one', 'src/Pass.cpp', 'if (e.test(p + numRanges * 6 - 2 > pass_end, E_BADPASSLENGTH))', 'if (e.test(p + numRanges * 6 - 4 > pass_end + 8, E_BADPASSLENGTH))'),
+  ('glat-bound-dropped', 'src/GlyphCache.cpp', 'if (glocs >= m_pGlat.size() - 1 || gloce > m_pGlat.size())', 'if (glocs >= m_pGlat.size() - 1)'),
+  ('class-lookup-check-dropped', 'src/Silf.cpp', '|| lookup[0] * 2 + *o + 4 > max_off ', '|| false '),
+ ],
+ 'C02': [
+  ('insert-budget-ignored', 'src/inc/opcodes.h', 'if (smap.decMax() <= 0) DIE;', 'smap.decMax();'),
+  ('loop-counter-not-reset', 'src/Pass.cpp', "if (s && (s == m.slotMap().highwater() || m.slotMap().highpassed() || --lc == 0)) {", "if (s && (s == m.slotMap().highwater() || m.slotMap().highpassed() || --lc == -1000000)) {"),
+  ('attach-chain-limit-removed', 'src/Slot.cpp', 'if (count < 100 && !foundOther && other->child(this))', 'if (!foundOther && other->child(this))'),
+  ('maxref-precheck-dropped', 'src/Code.cpp', "        || m.slotMap()[_max_ref + m.slotMap().context()] == 0)", "        || false)"),
+ ],
+ 'C03': [
+  ('delete-no-length-update', 'src/inc/opcodes.h', '        is = is->prev();\n    seg.extendLength(-1);', '        is = is->prev();'),
+  ('putcopy-index-reverted', 'src/inc/opcodes.h', '            is->index(index);       // the copy keeps its own place in the stream', ''),
+  ('insert-prev-link-broken', 'src/inc/opcodes.h', '        iss->prev()->next(newSlot);\n        newSlot->prev(iss->prev());', '        iss->prev()->next(newSlot);'),
+ ],
+ 'C04': [
+  ('cycle-check-removed', 'src/Slot.cpp', 'if (count < 100 && !foundOther && other->child(this))', 'if (count < 100 && other->child(this))'),
+  ('putcopy-overwrites-attached', 'src/inc/opcodes.h', 'if (is->attachedTo() || is->firstChild()) DIE', ''),
+  ('freeslot-keeps-children', 'src/Segment.cpp', '            aSlot->firstChild()->attachTo(nullptr);\n            aSlot->removeChild(aSlot->firstChild());', '            aSlot->removeChild(aSlot->firstChild());'),
+  ('delete-detach-reverted', 'src/inc/opcodes.h', '        if (child->attachedTo() == is)\n        {\n            child->attachTo(NULL);', '        if (child->attachedTo() == is)\n        {'),
+ ],
+ 'C05': [
+  ('assoc-before-uses-max', 'src/inc/opcodes.h', 'if (ts && (min == -1 || ts->before() < min)) min = ts->before();', 'if (ts && (min == -1 || ts->before() > min)) min = ts->before();'),
+  ('associate-edge-fix-reverted', 'src/Segment.cpp', '        if (c->after() < 0)         c->after(c->before());', '        if (false)         c->after(c->before());'),
+  ('associate-extension-off-by-one', 'src/Segment.cpp', '        --a;\n        s->after(a);', '        s->after(a);'),
+ ],
+ 'C07': [
+  ('less-unsigned', 'src/inc/opcodes.h', 'STARTOP(less)\n    sbinop(<);', 'STARTOP(less)\n    binop(<);'),
+  ('cond-pop-order', 'src/inc/opcodes.h', 'const uint32 f = pop(), t = pop(), c = pop();', 'const uint32 t = pop(), f = pop(), c = pop();'),
+  ('trunc16-as-8', 'src/inc/opcodes.h', '    *sp = uint16(*sp);', '    *sp = uint8(*sp);'),
+  ('band-bor-swapped', 'src/inc/opcodes.h', 'STARTOP(band)\n    binop(&);', 'STARTOP(band)\n    binop(|);'),
+  ('call-machine-only-min', 'src/call_machine.cpp', '#include "inc/opcodes.h"', '#include "inc/opcodes.h"\n'),
+ ],
+ 'C11': [
+  ('overlong-2byte-accepted', 'src/inc/UtfCodec.h', 'toolong |= (u < 0x80); GR_FALLTHROUGH;', 'toolong |= (u < 0x40); GR_FALLTHROUGH;'),
+  ('utf16-low-surrogate-boundary', 'src/inc/UtfCodec.h', 'if (uh > 0xDBFF) { l = -1; return 0xFFFD; }', 'if (uh > 0xDC00) { l = -1; return 0xFFFD; }'),
+  ('count-ignores-nul', 'src/gr_segment.cpp', 'if ((usv = *first) == 0 || first.error()) break;', 'if ((usv = *first) == 0xFFFFFFFF || first.error()) break;'),
+ ],
+ 'C14': [
+  ('minmatch-3', 'src/inc/Compression.h', 'MINMATCH = 4,', 'MINMATCH = 3,'),
+  ('overrun-copy-unchecked', 'src/Decompressor.cpp', '            && align(match_len) <= out_size)', '            )'),
+  ('size-mask-28-bits', 'src/Face.cpp', 'uncompressed_size  = hdr & 0x07ffffff;', 'uncompressed_size  = hdr & 0x0fffffff;'),
+  ('version-check-skipped', 'src/Face.cpp', 'e.test(be::peek<uint32>(uncompressed_table) != version, E_SHRINKERFAILED);', '(void)version;'),
+ ],
+ 'C15': [
+  ('attach-offset-unscaled', 'src/Slot.cpp', 'm_position += (m_attach - m_with) * scale;', 'm_position += (m_attach - m_with);'),
+  ('advance-y-unscaled', 'src/gr_slot.cpp', '        return res * font->scale();', '        return res;'),
+ ],
+ 'C18': [
+  ('range-check-ge', 'src/FeatureMap.cpp', 'if (val>maxVal() || !m_face)', 'if (val>=maxVal() || !m_face)'),
+  ('mask-not-cleared', 'src/FeatureMap.cpp', '    pDest[m_index] &= ~m_mask;', ''),
+  ('zeropad-2char-dropped', 'src/gr_face.cpp', '        if ((x & 0x0000FFFF) == 0x00002020)     return x & 0xFFFF0000;', ''),
+ ],
+ 'C19': [
+  ('justify-dir-fix-reverted', 'src/Justifier.cpp', 'res = positionSlots(font, pSlot, pLast, m_silf->dir());', 'res = positionSlots(font, pSlot, pLast, m_dir);'),
+  ('no-final-reverse', 'src/Justifier.cpp', "    m_first = oldFirst;\n    m_last = oldLast;\n\n    if ((m_dir & 1) != m_silf->dir() && m_silf->bidiPass() != m_silf->numPasses())\n        reverseSlots();", "    m_first = oldFirst;\n    m_last = oldLast;"),
+  ('restore-first-only', 'src/Justifier.cpp', '    m_first = oldFirst;\n    m_last = oldLast;', '    m_first = oldFirst;'),
+ ],
+ 'C17': [
+  ('zones-single-point-fix-reverted', 'src/Intervals.cpp', 'if (_pos == _posm && x < _pos && _pos < xm)', 'if (false && _pos == _posm && x < _pos && _pos < xm)'),
+  ('remove-case2-no-trim', 'src/Intervals.cpp', '            i->xm = x;\n            if (separated(i->x, i->xm)) break;', '            if (separated(i->x, i->xm)) break;'),
+  ('vmax-uses-xa', 'src/Collider.cpp', 'vmax = min(min(bb.xa - tbb.xi + sx, sb.da - tsb.di + ty + sd), sb.sa - tsb.si - ty + ss);', 'vmax = min(min(bb.xa - tbb.xa + sx, sb.da - tsb.di + ty + sd), sb.sa - tsb.si - ty + ss);'),
+  ('kern-clamp-sign', 'src/Collider.cpp', 'float result = min(_limit.tr.x - _offsetPrev.x, max(resultNeeded, _limit.bl.x - _offsetPrev.x));', 'float result = min(_limit.tr.x + _offsetPrev.x, max(resultNeeded, _limit.bl.x - _offsetPrev.x));'),
+ ],
+ 'C16': [
+  ('no-release-on-failed-check', 'src/Face.cpp', '        release();     // Make sure we release the table buffer even if the table failed its checks\n        return;', '        return;'),
+  ('nametable-retry-reverted', 'src/Face.cpp', 'if (m_pNames || m_namesTried) return m_pNames;', 'if (m_pNames) return m_pNames;'),
+ ],
+ 'C10': [
+  ('cached-cmap-limit-fffe', 'src/CmapCache.cpp', 'bmp_cmap, 0, 0xFFFF))', 'bmp_cmap, 0, 0x2FFF))'),
+  ('preload-skips-last-glyph-attrs', 'src/GlyphCache.cpp', 'for (uint16 gid = 1; loaded && gid != _num_glyphs; ++gid)', 'for (uint16 gid = 1; loaded && gid != _num_glyphs; ++gid) if (gid % 97 == 96) { _glyphs[gid] = _glyphs[0]; } else'),
+ ],
+ 'C08': [
+  ('setfeature-writes-face-default', 'src/inc/Segment.h', 'pFR->applyValToFeature(val, m_feats[index]);', 'pFR->applyValToFeature(val, m_feats[index]); pFR->applyValToFeature(val, const_cast<Features &>(m_face->theSill().theFeatureMap().m_defaultFeatures));'),
+ ],
+ 'C12': [('nul-stop-reverted', 'src/Segment.cpp', "if (usv == 0)   break;      // the string ends at the first NUL, whatever n_chars says", "")],
+ 'C13': [('fmt4-lookup-end-exclusive', 'src/TtfUtil.cpp', 'if (chEnd >= nUnicodeId && nUnicodeId >= chStart)', 'if (chEnd > nUnicodeId && nUnicodeId >= chStart)'),
+         ('cache-walk-from-1', 'src/CmapCache.cpp', 'bmp_cmap, 0, 0xFFFF))', 'bmp_cmap, 1, 0xFFFF))')],
+ 'C20': [('str-to-tag-max', 'src/gr_face.cpp', 'switch(min(strlen(str),size_t(4)))', 'switch(max(strlen(str),size_t(4)))'),
+         ('tag-to-str-nul', 'src/gr_face.cpp', '    *str   = char(tag);', '    *str++ = char(tag); *str = 0;')],
+})
+
 def main():
     a = sys.argv[1:]
     tier = 'quick'
